@@ -4,13 +4,82 @@
 use crate::report::Report;
 use crate::report::hex;
 use crate::report::parse_u64;
-use libwild::verif::api;
+use sut as api;
 use rayon::prelude::*;
 use serde_json::Value;
 use serde_json::json;
 use std::panic::catch_unwind;
 
 const MAX_EXP: u8 = 16;
+
+// ---------------------------------------------------------------------------------------------
+// The functions under test. UNITX_MUTANT=<name> substitutes a deliberately wrong variant (a copy
+// of wild's code with one seeded defect) so that the oracle's sensitivity can be demonstrated
+// without touching /repo; the check never sets it.
+mod sut {
+    use libwild::verif::api;
+    use std::sync::OnceLock;
+
+    fn mutant() -> &'static str {
+        static M: OnceLock<String> = OnceLock::new();
+        M.get_or_init(|| std::env::var("UNITX_MUTANT").unwrap_or_default())
+    }
+
+    pub fn alignment_new(raw: u64) -> Option<u8> {
+        match mutant() {
+            "new-ge16" => api::alignment_new(raw).filter(|e| *e < 16),
+            "new-any-pow2" => raw.is_power_of_two().then(|| raw.trailing_zeros() as u8),
+            _ => api::alignment_new(raw),
+        }
+    }
+
+    pub fn align_up(exp: u8, v: u64) -> u64 {
+        match mutant() {
+            "up-plus-mask" => (v.wrapping_add(1 << exp)) & !((1u64 << exp) - 1),
+            _ => api::align_up(exp, v),
+        }
+    }
+
+    pub fn align_down(exp: u8, v: u64) -> u64 {
+        match mutant() {
+            "down-off-by-one" => v & !((1u64 << exp) >> 1),
+            _ => api::align_down(exp, v),
+        }
+    }
+
+    pub fn align_modulo(exp: u8, reference: u64, offset: u64) -> u64 {
+        match mutant() {
+            // wild's code with `adjustment > value` changed to `>=`
+            "modulo-ge" => {
+                let value = 1u64 << exp;
+                let mask = value - 1;
+                let offset = api::align_up(exp, offset);
+                if offset & mask == reference & mask {
+                    return offset;
+                }
+                let mut adjustment = (reference & mask) + value - (offset & mask);
+                if adjustment >= value {
+                    adjustment -= value;
+                }
+                offset + adjustment
+            }
+            // forgets to align the offset up first
+            "modulo-no-align" => {
+                let value = 1u64 << exp;
+                let mask = value - 1;
+                if offset & mask == reference & mask {
+                    return offset;
+                }
+                let mut adjustment = (reference & mask) + value - (offset & mask);
+                if adjustment > value {
+                    adjustment -= value;
+                }
+                offset + adjustment
+            }
+            _ => api::align_modulo(exp, reference, offset),
+        }
+    }
+}
 
 // ---------------------------------------------------------------------------------------------
 // Reference, written from the statement (u128, no bit tricks).
@@ -84,11 +153,9 @@ fn new_domain() -> Vec<u64> {
 
 /// Windows for align_up / align_down as (start, length).
 fn updown_windows(thorough: bool) -> Vec<(u64, u64)> {
-    let (w18, w17) = if thorough {
-        (1u64 << 18, 1u64 << 17)
-    } else {
-        (1u64 << 18, 1u64 << 17)
-    };
+    // The same windows in both tiers (17 x 2^20 values cost about a second).
+    let _ = thorough;
+    let (w18, w17) = (1u64 << 18, 1u64 << 17);
     vec![
         (0, w18),
         ((1u64 << 32) - w17, 2 * w17),
